@@ -10,7 +10,7 @@ VERIF = os.path.dirname(os.path.dirname(os.path.abspath(__file__)))
 T_PROOF = "Lean 4 machine-checked proof about an executable model"
 CLAIMED = {
     "C01": (T_PROOF + ": Pratt print/parse round trip over the extracted binding-power table, evaluator laws and fuel monotonicity over the evaluator model; correspondence of lexer, parser, resolver and evaluator models with the real pipeline on generated programs",
-            "Theorems (no sorry/axioms): for every text the front-end model accepts iff there is no lexical / syntax diagnostic and the parsed tree satisfies the documented well-formedness judgement (c01_accepted_iff_clean_and_valid), a valid canonical program is never rejected in any layout and runs like its tree (c01_valid_never_rejected, c01_accepted_runs_like_the_tree); theorems pin precedence/associativity for all expressions, short-circuit and left-to-right evaluation, truthiness, loop unrolling, call/return and concatenation/interpolation laws for all terms, states and fuel; the models are tied to the code by regenerated tables (keywords, binding powers, builtins, type rules) and differential runs of the Lean pipeline against the real interpreter.",
+            "Theorems (no sorry/axioms): for every text the front-end model accepts iff there is no lexical / syntax diagnostic and the parsed tree satisfies the documented well-formedness judgement (c01_accepted_iff_clean_and_valid), a valid canonical program is never rejected in any layout and runs like its tree (c01_valid_never_rejected, c01_accepted_runs_like_the_tree, and their _anyflag versions over parse_ignores_str_flag, which cover plain string literals whatever escape flag the lexer sets); what a valid text does is what the documented semantics of its tree says, whatever the layout, the caps and the optimisation plan (c01_text_means_tree, composing C09, C10, C03 and C06); theorems pin precedence/associativity for all expressions, short-circuit and left-to-right evaluation, truthiness, loop unrolling, call/return and concatenation/interpolation laws for all terms, states and fuel; the models are tied to the code by regenerated tables (keywords, binding powers, builtins, type rules) and differential runs of the Lean pipeline against the real interpreter.",
             "Trusted: Lean kernel, extractors, harness/driver; numbers are an abstract NumOps structure in theorems (the driver instantiates IEEE doubles, validated against Rust each run); std string functions assumed.",
             "DESIGN.md §5 C01"),
     "C02": (T_PROOF + ": safety invariant of an abstract-interpretation memory evaluator (handles/regions, oracle-resolved control flow) for every program, oracle and fuel; tie by frame/no-frame differential and hook event traces",
@@ -41,12 +41,12 @@ CLAIMED = {
             "Partial: the theorem bounds native depth by STACK_BUDGET plus the largest guard-free chain for evaluator, parser and checker (guards added by fix 4fc914f; the pre-fix unguarded recursion is kept as refuted variants); frame sizes are measured, and every recursion shape is run past the budget in debug and release under an 8 MiB stack.",
             "Trusted: Lean kernel, extractor of guard sites; compiled frame sizes are measured, not proved (labelled partial).",
             "DESIGN.md §5 C08"),
-    "C09": (T_PROOF + ": checker model vs declarative well-formedness judgement: scoping diagnostics equal the declarative violations for every program (rule, span, order); typing rules proved in step with the specification for every program whose return expressions are well typed (explicit decidable hypothesis excluding the one open finding D-09f); probed operator/builtin/return-type tables compared with the model's and the documented ones by decide; correspondence on diagnostics for well-formed programs and injected single-rule violations",
-            "Theorems relate the resolver model's diagnostics to a declarative WF judgement rule by rule (scoping exactly, typing under ReturnsTyped); the type tables and return-type-inference probes are taken from the real checker each run and the model's diagnostics are compared with the real ones on generated programs with single-rule violations in every context, incl. the composed source-text stream.",
-            "Trusted: Lean kernel, probe/extractors, harness; the full equivalence is refuted by the D-09f witness (open finding: recovery type becomes a result type when return-type rounds do not settle); D-09b is fixed (fc05160) and kept as a pinned variant with a decided falsity witness.",
+    "C09": (T_PROOF + ": checker model vs declarative well-formedness judgement: scoping diagnostics equal the declarative violations for every program (rule, span, order); typing rules proved in step with the specification for every program, unconditionally (c09_full_holds, after the repairs D-09b fc05160 and D-09f edc06b4); probed operator/builtin/return-type tables compared with the model's and the documented ones by decide; correspondence on diagnostics for well-formed programs and injected single-rule violations",
+            "Theorems relate the resolver model's diagnostics to a declarative WF judgement rule by rule — c09_full_holds: for every program, the resolver model reports no diagnostic iff the program has no scoping and no typing violation of the declarative judgement, whatever its functions return and whether or not return-type rounds settle; the type tables and return-type-inference probes are taken from the real checker each run and the model's diagnostics are compared with the real ones on generated programs with single-rule violations in every context, incl. the composed source-text stream.",
+            "Trusted: Lean kernel, probe/extractors, harness; the pre-fix checkers D-09b (fixed fc05160) and D-09f (fixed edc06b4: recovery type became a result type when return-type rounds did not settle) are kept as pinned variants with decided falsity witnesses; no open finding.",
             "DESIGN.md §5 C09"),
     "C10": (T_PROOF + ": lexer round trip render/lex for all token sequences and all valid separator assignments; parser depends on token kinds only; redundant parentheses erased (Pratt round trip); every later stage commutes with span erasure (end-to-end c10_pipeline)",
-            "Any two valid layouts of one token sequence lex alike (proved for all sequences and layouts), parsing depends only on token kinds, full parenthesisation parses to the same tree, and resolver, limit preflight, analyses and evaluator commute with span erasure — c10_pipeline: the two texts have the same pipeline observation (stage, diagnostic kinds, printed values, ending, runtime-error kind) for every caps, configuration and fuel; c10_redundant_parentheses_run; tied to the code by differential runs and by re-layout differentials on the real interpreter.",
+            "Any two valid layouts of one token sequence lex alike (proved for all sequences and layouts), parsing depends only on token kinds, full parenthesisation parses to the same tree, and resolver, limit preflight, analyses and evaluator commute with span erasure — c10_pipeline: the two texts have the same pipeline observation (stage, diagnostic kinds, printed values, ending, runtime-error kind) for every caps, configuration and fuel; c10_redundant_parentheses_run; the parser ignores the escape flag of brace-free string tokens (parse_ignores_str_flag), so the printer-based theorems cover every plain string literal; tied to the code by differential runs and by re-layout differentials on the real interpreter.",
             "Trusted: Lean kernel, extractor of lexical tables, harness.",
             "DESIGN.md §5 C10"),
     "C11": (T_PROOF + ": invariant and frame theorems over all arena operation histories (alloc/grow/shrink/reset/decommit/scratch); correspondence with the real Arena through the Allocator API and hooks",
